@@ -162,6 +162,14 @@ def ev(n, sym, val):
         except Exception:
             return None
         return None
+    if k == "ArraySubscriptExpr":
+        b = n.kids[0].strip(casts=True)
+        if b.k == "DeclRefExpr" and b.d.get("g"):
+            t = _global_table(b)
+            i = ev(n.kids[1], sym, val)
+            if isinstance(t, list) and i is not None and 0 <= i < len(t) and isinstance(t[i], int):
+                return t[i]
+        return None
     if k == "ConditionalOperator":
         c = ev(n.kids[0], sym, val)
         if c is None:
@@ -187,6 +195,26 @@ def ev(n, sym, val):
             return v
         return None
     return None
+
+
+PROG = [None]           # set by a rule that wants subscripts of constant global tables evaluated (chr_class[c])
+_TABLES = {}
+
+
+def _global_table(ref):
+    prog = PROG[0]
+    if prog is None:
+        return None
+    key = (id(prog), ref.d["name"])
+    if key not in _TABLES:
+        try:
+            from .consteval import Interp
+            it = Interp(prog)
+            name = it.load_global(ref)
+            _TABLES[key] = it.globals_env()[name]
+        except Exception:
+            _TABLES[key] = None
+    return _TABLES[key]
 
 
 def mentions(n, sym):
